@@ -2,6 +2,7 @@ package sym
 
 import (
 	"fmt"
+	"os"
 	"go/token"
 	"go/types"
 	"strings"
@@ -161,6 +162,9 @@ func shortFile(f string) string {
 func (ex *Exec) targetPanic(msg string) {
 	site := ex.site(ex.cur)
 	ex.faults = append(ex.faults, Fault{Msg: msg, Site: site, Stack: ex.stack()})
+	if traceQ {
+		fmt.Fprintf(os.Stderr, "FAULT %s\n  %s\n", msg, strings.Join(ex.stack(), "\n  "))
+	}
 	v := Iface{T: ex.eng.runtimeErrorString, V: mkStr(strings.TrimPrefix(msg, "runtime error: "))}
 	panic(targetPanic{v: v, fault: msg, site: site})
 }
@@ -205,7 +209,7 @@ func (ex *Exec) visitInstr(fr *frame, instr ssa.Instruction) (ret bool) {
 	case *ssa.Extract:
 		fr.env[instr] = fr.get(instr.Tuple).(Tuple)[instr.Index]
 	case *ssa.Slice:
-		fr.env[instr] = ex.slice(instr, fr.get(instr.X), fr.get(instr.Low), fr.get(instr.High), fr.get(instr.Max))
+		fr.env[instr] = ex.slice(instr, fr.get(instr.X), idx64opt(fr, instr.Low), idx64opt(fr, instr.High), idx64opt(fr, instr.Max))
 	case *ssa.Return:
 		switch len(instr.Results) {
 		case 0:
@@ -258,8 +262,8 @@ func (ex *Exec) visitInstr(fr *frame, instr ssa.Instruction) (ret bool) {
 		}
 		*addr = zero(deref(instr.Type()))
 	case *ssa.MakeSlice:
-		n := ex.concreteInt(fr.get(instr.Len), "make len")
-		c := ex.concreteInt(fr.get(instr.Cap), "make cap")
+		n := ex.concreteInt(idx64(fr, instr.Len), "make len")
+		c := ex.concreteInt(idx64(fr, instr.Cap), "make cap")
 		if n < 0 || c < n || c > 1<<24 {
 			ex.targetPanic("runtime error: makeslice: len out of range")
 		}
@@ -511,4 +515,11 @@ func idx64(fr *frame, v ssa.Value) Val {
 	}
 	_, signed, _ := intWidth(v.Type())
 	return Resize(t, 64, signed)
+}
+
+func idx64opt(fr *frame, v ssa.Value) Val {
+	if v == nil {
+		return nil
+	}
+	return idx64(fr, v)
 }
